@@ -24,6 +24,12 @@ CLAIMED = {
    text="Proof: Regs/Alloc.v models RegisterAllocator (alloc/free/reserve_range/save/restore over u8) and the register window of sized constructs. Proved unbounded: on every disciplined operation sequence whatever is handed out is distinct, not in use and below max_used <= 255 (c10_alloc_no_alias); for EVERY size n a window is refused with a limit error or consists of n fresh consecutive registers, never a panic or a wrapped index (c10_window_size_independent); the pre-fix narrowing is refuted by witness (n = 256) and the cumulative limit (known finding F2) by witness. Tie on every run: random allocator histories against the real allocator, the real compiler's CreateArray/Call/Construct/TemplateConcat/TaggedTemplate windows against the model for dense sizes x contexts, and self-checking programs of 12 families (incl. parameters, object literals, switch, statements, constants, jumps) against closed forms in a worker process.",
    note="Trusted: Coq kernel; extraction + OCaml driver; Rust harness; Python generators/closed forms. Only the window pattern is modelled; the other families are tied by execution only. Known findings F2 (registers never released => cumulative limit) and F3 (constant pool cumulative) are reported as KNOWN-FINDING; release-profile wrap is modelled but only the debug harness runs in the quick tier.",
    design_ref="DESIGN.md §5 C10"),
+ "C15": dict(
+   engine="Num",
+   technique="Coq proof (ToInt32/ToUint32 = ES modular definition for all integers; Number::toString layout preserves the value and picks the prescribed notation for all digit strings and exponents) + vm_compute correspondence with tsrun::value on structured double families; node 20 as reference",
+   text="Proof: Num/Model.v mirrors value::to_int32/to_uint32 and value::layout_number_digits after fixes a62973b and d4b615a. Proved for every integer t: to_int32 t = ES ToInt32, to_uint32 t = t mod 2^32, range (c15_to_int32_wraps, c15_to_uint32_wraps, c15_to_int32_range); for every non-empty digit list and exponent the chosen notation denotes exactly digits*10^e and is the plain/decimal/0.000ddd/exponent form exactly in the ES ranges (c15_layout_preserves_value, c15_layout_notation); the pinned saturating cast is refuted by witness. Tie on every run: number_to_string, to_int32, to_uint32 on ~21000 structured and random bit patterns against the model evaluated inside Coq; the same values in-program (String, toString, | >>> ~ << >> & ^) against node; toFixed/toPrecision/toExponential/toString(radix) against node (reference-only) with deviations classified into known-finding cells by exact rational arithmetic. Partial: shortest-digit generation is Rust's {:e} (oracle validated against node; exact ties between two shortest candidates are accepted either way); string_to_number and the formatting methods are not modelled.",
+   note="Trusted: Coq kernel + vm_compute; Rust core float formatting ({:e}) as digit oracle, fmod/trunc exactness; node 20; Python Fraction arithmetic for cell classification; Rust harness.",
+   design_ref="DESIGN.md §5 C15"),
 }
 
 NOT_YET = "not claimed yet in this revision: its model/theorem pair is not built; see DESIGN.md §5 and §8 (build order)"
